@@ -1,7 +1,9 @@
+\* Template: the driver instantiates Part = 0 (small integers), 1 (tags, lengths, OIDs,
+\* strings, trees) and 2 .. Parts+1 (big-integer family) as parallel TLC runs.
 CONSTANTS
   MaxPow = 4096
-  Part = 0
-  Parts = 1
+  Part = 1
+  Parts = 8
 INIT Init
 NEXT Next
 INVARIANTS
